@@ -27,6 +27,7 @@ TClose == IsEv("close") /\ Close
 TReadEof == IsEv("read_eof") /\ ReadEof
 TReadErr == IsEv("read_err") /\ ReadErr
 TRecv == /\ IsEv("recv")
+         /\ Rec[l].blen <= maxb          \* the receive buffer itself never exceeds the limit (C17)
          /\ LET e == Rec[l] IN
             IF dead THEN DeliverDead
             ELSE IF e.cls \in FrameClasses THEN Deliver(e.cls, e.canon)
